@@ -317,3 +317,19 @@ def refresh_extracted(pid, repo):
         old = None
     if old != new:
         open(target, "w").write(new)
+
+
+def merge_member_def(repo):
+    """the three sequential `if`s of `state::merge`, symbolically executed (shared by C32 and C33)"""
+    _, body = fn_body(repo, "p2panda-auth/src/group/crdt/state.rs", "merge")
+    inner = block_after(body, "if let Some(member_state) = next_state.members.get_mut(&id)")
+    return body, translate_block(inner, {
+        "lean_name": "mergeMemberT",
+        "params": "{A : Type} (lt : A → A → Bool) (mc1 ac1 : Nat) (a1 : A) (mc ac : Nat) (a : A)",
+        "ret": "Nat × A × Nat",
+        "places": {"member_state.member_counter": "mc", "member_state.access": "a", "member_state.access_counter": "ac"},
+        "atoms": {"member_state_1.member_counter": "mc1", "member_state_1.access": "a1", "member_state_1.access_counter": "ac1"},
+        "methods": {"tie_lt": {"value": "(lt {0} {recv} = true)"}},
+        "outputs": ["member_state.member_counter", "member_state.access", "member_state.access_counter"],
+    }, rewrites=[(r"merge_tie_break_less\(\s*&member_state_1\.access\s*,\s*&member_state\.access\s*\)",
+                  "member_state.access.tie_lt(&member_state_1.access)")])
